@@ -116,6 +116,10 @@ def _run_model_1(lines, tag='m', timeout=600):
     return res, rc
 
 
+_TERRN = re.compile(r'(terr:[a-z_]+:[0-9-]+:[0-9-]+)@(x[0-9a-f]*|-)')
+TERR_NAMES = {}
+
+
 def _run_impl_1(lines, tag='i', timeout=600, profile='debug'):
     """Runs the harness; a dying process (stack overflow abort) is handled by
     resuming after the case that killed it, which is recorded as ABORT."""
@@ -139,6 +143,12 @@ def _run_impl_1(lines, tag='i', timeout=600, profile='debug'):
         for l in out:
             k, _, v = l.partition(' ')
             # a partially written last line can only occur if the process died mid-write
+            if '@' in v and 'terr:' in v:
+                # registration errors carry `@<name>` (harness only, PROTOCOL.md §4.1): kept aside for C18's oracle
+                nm = _TERRN.findall(v)
+                if nm:
+                    TERR_NAMES[k] = [n for _, n in nm]
+                    v = _TERRN.sub(r'\1', v)
             res[k] = v
             done += 1
         for p in (cf, of):
